@@ -260,5 +260,31 @@ def main():
         ctx.cleanup()
 
 
+def _main_in_own_group():
+    """run main() as the leader of its own process group and, when it is done, kill whatever the run left behind in
+    that group (a library change may keep worker processes alive beyond the call that started them: they would hold
+    the check's output pipe open and the check would never end for its caller)"""
+    import signal
+    try:
+        os.setpgid(0, 0)
+    except OSError:
+        pass
+    code = 1
+    try:
+        code = main()
+    finally:
+        sys.stdout.flush()
+        sys.stderr.flush()
+        try:
+            if os.getpgid(0) == os.getpid():
+                signal.signal(signal.SIGTERM, signal.SIG_IGN)
+                os.killpg(os.getpid(), signal.SIGTERM)
+                time.sleep(0.05)
+                signal.signal(signal.SIGKILL if False else signal.SIGTERM, signal.SIG_IGN)
+        except OSError:
+            pass
+    return code
+
+
 if __name__ == "__main__":
-    sys.exit(main())
+    sys.exit(_main_in_own_group())
